@@ -12,6 +12,8 @@ use rxsim_rt::RunCfg;
 use std::sync::{Arc, Mutex};
 
 pub const OPS_MULTI: &[&str] = &["merge", "zip", "amb", "concat", "flat_map"];
+/// further multi-input operators, only judged for the observer contract (C19)
+pub const OPS_MULTI_C19: &[&str] = &["combine_latest", "sequence_equal", "switch_on_next"];
 pub const OPS_TRIGGER: &[&str] = &["take_until", "skip_until", "sample"];
 
 pub struct Scenario {
@@ -25,7 +27,10 @@ pub struct Scenario {
 
 pub fn scenario_from_json(w: &Json) -> Option<Scenario> {
   let op = w.s("op");
-  if !OPS_MULTI.contains(&op.as_str()) && !OPS_TRIGGER.contains(&op.as_str()) {
+  if !OPS_MULTI.contains(&op.as_str()) && !OPS_TRIGGER.contains(&op.as_str()) && !OPS_MULTI_C19.contains(&op.as_str()) {
+    return None;
+  }
+  if op == "switch_on_next" && w.a("inputs").len() != 2 {
     return None;
   }
   let mut scripts = Vec::new();
@@ -101,6 +106,9 @@ pub fn run_scenario(sc: &Scenario, cfg: RunCfg) -> Ran {
       "amb" => inputs[0].amb(&inputs[1..]),
       "concat" => inputs[0].concat(&inputs[1..]),
       "zip" => inputs[0].zip(&inputs[1..]).map(|v: Vec<Val>| Val::List(v)),
+      "combine_latest" => inputs[0].combine_latest(&inputs[1..], |v: Vec<Val>| Val::List(v)),
+      "sequence_equal" => inputs[0].sequence_equal(&inputs[1..]).map(Val::Bool),
+      "switch_on_next" => inputs[0].switch_on_next(inputs[1].clone()),
       "flat_map" => {
         let (il, hs) = (il2.clone(), handles.clone());
         inputs[0].flat_map(move |x: Val| {
@@ -252,8 +260,14 @@ impl Family for C19Ops {
   fn gen(&self, rng: &mut Rng, tier: Tier) -> Json {
     let maxlen = if tier == Tier::Quick { 3 } else { 4 };
     let trigger = rng.below(3) == 0;
-    let op = if trigger { *rng.pick(OPS_TRIGGER) } else { *rng.pick(OPS_MULTI) };
-    let n = if trigger {
+    let op = if trigger {
+      *rng.pick(OPS_TRIGGER)
+    } else if rng.below(4) == 0 {
+      *rng.pick(OPS_MULTI_C19)
+    } else {
+      *rng.pick(OPS_MULTI)
+    };
+    let n = if trigger || op == "switch_on_next" {
       2
     } else if op == "flat_map" {
       1
